@@ -23,7 +23,7 @@
 (* threshold), F62 (negative shift amount for the widest mantissas).        *)
 (***************************************************************************)
 EXTENDS Ieee, TLC, Json
-CONSTANTS CB, M, EminNeg, Emax, Style, FixSticky, FixUnderflow, Scope,
+CONSTANTS CB, M, EminNeg, Emax, Style, FixSticky, FixUnderflow, FixShift, Scope,
           ELoAbs, ELoNegative, EHiAbs, EHiNegative      \* exponent window of the scope
 \* (TLC configuration files have no negative literals)
 Emin == -EminNeg
@@ -47,7 +47,7 @@ Branch(mag, ex) ==
   ELSE IF tb < UnderThr THEN "underflow"
   ELSE IF tb <= SubThr THEN
          (LET shift == ex - Emin + Fb IN
-          IF shift >= 0 THEN "subshl" ELSE IF CB - 2 + shift < 0 THEN "subpanic" ELSE "subshr")
+          IF shift >= 0 THEN "subshl" ELSE IF CB - 2 + shift < 0 /\ ~FixShift THEN "subpanic" ELSE "subshr")
   ELSE IF mag = One THEN "normalone" ELSE "normal"
 
 \* last step shared by the subnormal and the normal branch
@@ -69,7 +69,10 @@ EncodeBy(br, sg, mag, ex) ==
              shifted == LowBits(Shl(mag, CB - 2 + shift), CB)
              rb == 4 * Bit(shifted, CB - 2) + 2 * Bit(shifted, CB - 3)
                    + Sticky(shifted, IF FixSticky THEN CB - 3 ELSE CB - 4)
-         IN Finish(sg, Shr(mag, -shift), rb)
+             \* FixShift (F62 repaired): the mantissa is widened to two containers before the shift, CB + shift >= 0 always
+             wide == Shl(mag, CB + shift)
+             rbw == 4 * Bit(wide, CB) + 2 * Bit(wide, CB - 1) + Sticky(wide, CB - 1)
+         IN Finish(sg, Shr(mag, -shift), IF FixShift THEN rbw ELSE rb)
     [] br = "normalone" -> Finish(sg, Shl(FromNat(ex + Emax), Fb), 0)
     [] br = "normal" ->
          LET bl == BitLen(mag)
